@@ -492,9 +492,10 @@ LEVEL_TEXT = ("Theorems in Lean about the executable model of Keyvalues._seriali
               "indent_braces, any flags / single_line, names without CR/LF or newline_keys), C01_roundtrip_root (any number of "
               "top-level keyvalues), C01_roundtrip_single_block, C01_tokens / C01_tokens_root (the token stream of the "
               "serialised text - kinds, values, line numbers - is a function of the tree alone), C01_ws_indep, and "
+              "C01_parse_no_internal (the parser machine never reaches a model-only state: invariant proof), "
               "C01_block_names_escaped_needed / C01_unescaped_not_roundtrip / C01_unescaped_alters_name (the writer that "
               "leaves block names raw - the defect fixed in /repo - is not invertible). C01_gen_cfg / C01_gen_shape / "
-              "C01_gen_tables tie the writer (which fields are escaped, the text templates) and the tables to keyvalues.py / "
+              "C01_gen_tables tie the writer (which fields are escaped, the text templates; also whether parse guards its flag-replace test) and the tables to keyvalues.py / "
               "tokenizer.py through the translator; the parser control flow is tied by a differential run of serialise text "
               "and parse results / error ids / line numbers.")
 LEVEL_NOTE = ("Trusted: Lean kernel + propext/Classical.choice/Quot.sound; tools/gen_kvser.py, tools/gen_tok.py; the "
